@@ -2,5 +2,6 @@ package websocket
 
 // Registry lists the harness entry points of this package for native replay.
 var Registry = map[string]func([]int64){
-	"HarnessConnect": func(a []int64) { HarnessConnect(int(a[0]), int(a[1])) },
+	"HarnessConnect":                func(a []int64) { HarnessConnect(int(a[0]), int(a[1])) },
+	"HarnessConnectAfterRevocation": func(a []int64) { HarnessConnectAfterRevocation(int(a[0])) },
 }
